@@ -1,26 +1,137 @@
 /-
 C12 — model of instance startup (core/engine/engine.go `startInstances`, `buildNewInstanceSchedule`, the two cancel
-sources of the start context in `awaitRun` / the shared-RPS callback) as a transition system over EVENTS, and of the token
-times of `schedule.NewInstanceStep`.  Core Lean only, executable.
+sources of the start context in `awaitRun` / the shared-RPS callback, `runNewInstance`; core/engine/instance.go the exits
+of `instance.Run`) as a transition system over EVENTS, and of the token times of `schedule.NewInstanceStep`.
+Core Lean only, executable.
 
-`startInstances` is one sequential loop around the startup `Waiter` (the C04 model is reused for it); everything else
-(the await loop cancelling the start context on the first out-of-ammo result, the shared RPS schedule reporting its end, the
-run being cancelled, instances finishing on their own) happens concurrently and is an event that may be interleaved
-anywhere.  One `wait` event is one whole `waiter.Wait(startCtx)` call of the loop followed by what the loop does with its
-result: a cancellation that arrives while the call sleeps on its timer is represented by the interleaving in which the
-cancel event comes first (same outcome: `Wait` returns false, the loop exits); a cancellation that loses the final `select`
-against the fired timer by the one in which it comes after.
+Three layers:
+* `Pandora.Go.C12` — the vocabulary in which `/verif/gen -area startup` re-emits the current source
+  (`Pandora/Gen/Startup.lean`): the start loop as a SEQUENTIAL function of the results of its successive `Wait` calls,
+  the loop of `instance.Run` as a function of what every iteration sees, the cancel wiring as small tables.
+* the hand-written sequential expectations `startSeq`, `instRun`, … (Bridge/C12Startup proves the regenerated
+  definitions equal to them);
+* the transition system: `startInstances` is one sequential loop around the startup `Waiter` (the C04 model is reused
+  for it); everything else (the await loop cancelling the start context on the first out-of-ammo result, the shared
+  RPS schedule reporting its end, the run being cancelled, instances finishing) happens concurrently and is an event
+  that may be interleaved anywhere.  A `Wait` call that has to sleep is TWO steps: `wait` (entry `select`, `Next()`,
+  clock, timer armed → `pending`) and then `timerFire` (the timer branch of the final `select`) or `wakeCancelled`
+  (the `ctx.Done()` branch, possible only once the start context is cancelled); any other event may come in between.
+  Proofs/C12 proves that the transition system, projected to the start loop, computes `startSeq`.
 -/
 import Pandora.Model.C04
 
+namespace Pandora.Go.C12
+
+/-- the two contexts `startInstances` is given (roles; resolved by gen from `runAsync`, not from names) -/
+inductive Ctx | start | run
+deriving Repr, DecidableEq
+
+/-- what `startInstances` does besides waiting, in program order -/
+inductive Act
+  /-- synchronous `newInstance(ctx, …, id, deps)` -/
+  | newInstance (ctx : Ctx) (id : Int)
+  /-- `go func() { runRes <- instanceRunResult{id, func() error { defer first.Close(); return first.Run(ctx) }()} }()` -/
+  | goRunFirst (ctx : Ctx) (id : Int)
+  /-- `go func() { runRes <- instanceRunResult{id, runNewInstance(ctx, …, id, deps)} }()` -/
+  | goRunNew (ctx : Ctx) (id : Int)
+deriving Repr, DecidableEq
+
+/-- the `err` result of `startInstances` -/
+inductive StartErr
+  | none
+  /-- `ctx.Err()` (nil while that context is not done) -/
+  | ofCtx (c : Ctx)
+  /-- the error of the synchronous `newInstance` -/
+  | create
+deriving Repr, DecidableEq
+
+structure StartRes where
+  acts : List Act
+  started : Int
+  err : StartErr
+  /-- `false`: the list of `Wait` results ran out while the loop was still going -/
+  returned : Bool
+deriving Repr, DecidableEq
+
+/-- what the pool does on an awaited result / a schedule callback -/
+inductive PoolAct
+  | cancel (c : Ctx)
+  | reportErr
+deriving Repr, DecidableEq
+
+/-- the error a pass of the body of `instance.Run`'s loop returns -/
+inductive BodyErr | nil | outOfAmmo
+deriving Repr, DecidableEq
+
+/-- how `instance.Run` ends -/
+inductive RunRet
+  /-- the oracle list ran out: still looping -/
+  | running
+  /-- `return err` with the error of the loop body -/
+  | body (e : BodyErr)
+  /-- `return ctx.Err()` after the loop -/
+  | ctxErr
+deriving Repr, DecidableEq
+
+/-- what one evaluation of the loop head and one pass of the body of `instance.Run` see -/
+structure RunIter where
+  /-- `ctx.Done()` ready in `IsFinished` -/
+  ctxDone : Bool := false
+  /-- `sched.Left()` -/
+  left : Int := -1
+  /-- `provider.Acquire()` ok -/
+  ammoOk : Bool := true
+  /-- `waiter.Wait(ctx)` -/
+  waitOk : Bool := true
+deriving Repr, DecidableEq
+
+end Pandora.Go.C12
+
 namespace Pandora.Model.C12
-open Pandora.Model.C04
+open Pandora.Model.C04 Pandora.Go.C12
+
+/-! ### the sequential expectations (what the regenerated definitions must equal) -/
+
+/-- the `for ; waiter.Wait(startCtx); started++ { id := started; go … runNewInstance(runCtx, …, id, deps) }` loop and the
+`err = startCtx.Err(); return` after it -/
+def startSeqLoop (acts : List Act) (started : Int) : List (Ctx → Bool) → StartRes
+  | [] => { acts := acts, started := started, err := .none, returned := false }
+  | w :: ws =>
+    if w .start then startSeqLoop (acts ++ [.goRunNew .run started]) (started + 1) ws
+    else { acts := acts, started := started, err := .ofCtx .start, returned := true }
+
+/-- `startInstances` as a function of the result of the synchronous `newInstance` and of the results of the successive
+`waiter.Wait(·)` calls (each as a function of the context the call is given) -/
+def startSeq (firstOk : Bool) : List (Ctx → Bool) → StartRes
+  | [] => { acts := [], started := 0, err := .none, returned := false }
+  | w :: ws =>
+    if !w .start then { acts := [], started := 0, err := .ofCtx .start, returned := true }
+    else if !firstOk then { acts := [.newInstance .run 0], started := 0, err := .create, returned := true }
+    else startSeqLoop [.newInstance .run 0, .goRunFirst .run 0] 1 ws
+
+/-- `Waiter.IsFinished(ctx)` -/
+def instFinished (ctxDone : Bool) (left : Int) : Bool := if ctxDone then true else left == 0
+
+/-- one pass of the body of the loop of `instance.Run` -/
+def instBody (ammoOk waitOk : Bool) : BodyErr :=
+  if !ammoOk then .outOfAmmo else if !waitOk then .nil else .nil
+
+/-- `instance.Run`: `for !waiter.IsFinished(ctx) { err := body(); if err != nil { return err } }; return ctx.Err()` -/
+def instRun : List RunIter → RunRet
+  | [] => .running
+  | it :: rest =>
+    if !instFinished it.ctxDone it.left then
+      (if instBody it.ammoOk it.waitOk != .nil then .body (instBody it.ammoOk it.waitOk) else instRun rest)
+    else .ctxErr
+
+/-! ### the transition system -/
 
 /-- the four ways instance start may be cut short -/
 inductive Cause | outOfAmmo | rpsFinished | createFailed | runCancelled
 deriving Repr, DecidableEq
 
-/-- why an instance's `Run` returned -/
+/-- why an instance's `Run` returned: `return ctx.Err()` with the context not done (its schedule has no tokens left),
+`return outOfAmmoErr`, the recovered panic of `gun.Shoot`, `return ctx.Err()` with the context done -/
 inductive ExitReason | scheduleEnd | ammoEnd | error | cancelled
 deriving Repr, DecidableEq
 
@@ -37,6 +148,21 @@ inductive Phase
   | done       -- `startInstances` returned
 deriving Repr, DecidableEq
 
+/-- pool configuration as far as instance start depends on it -/
+structure Cfg where
+  /-- which `Waiter.Wait` (C04): the repaired one is the current code -/
+  v : Variant := .fresh
+  /-- `rps-per-instance`: every instance gets its own RPS schedule and no finish callback is installed -/
+  perInstance : Bool := false
+deriving Repr, DecidableEq
+
+/-- a `Wait` call of the start loop that is asleep on its timer, and what the loop will do if it returns true -/
+structure Pending where
+  env : Env
+  createOk : Bool
+  delay : Nat
+deriving Repr, DecidableEq
+
 structure St where
   phase : Phase := .starting
   /-- the startup Waiter -/
@@ -51,23 +177,42 @@ structure St where
   created : List Created := []
   /-- ids of instances whose `Run` has not returned -/
   running : List Nat := []
+  pending : Option Pending := none
   startCtxDone : Bool := false
   runCtxDone : Bool := false
+  /-- the shared RPS schedule has reported its end (`onFinishOnce.Do(onFinish)` has returned) -/
+  sharedRpsDone : Bool := false
+  /-- `provider.Acquire` has answered "no more ammo" to an instance -/
+  ammoOut : Bool := false
   sawOutOfAmmo : Bool := false
   sawRpsFinished : Bool := false
   sawCreateFailed : Bool := false
   sawRunCancelled : Bool := false
+  /-- ghost: results of the completed `Wait` calls of the start loop, oldest first -/
+  waitLog : List Bool := []
+  /-- ghost: result of the synchronous `newInstance` (true until it fails) -/
+  firstOk : Bool := true
+  /-- ghost: what `startInstances` did besides waiting -/
+  acts : List Act := []
+  /-- ghost: the `err` result of `startInstances` once it has returned -/
+  ret : StartErr := .none
 deriving Repr, DecidableEq
 
 def St.init (toks : List Int) : St := { toks := toks }
 
 inductive Event
-  /-- the start loop makes its next `waiter.Wait(startCtx)` call (`env`: what that call sees) and, if it returns true,
-  creates the next instance `delay` ns after the return; `createOk` = `newInstance` succeeds -/
+  /-- the start loop makes its next `waiter.Wait(startCtx)` call (`env`: what that call sees; `env.ret`: when it returns
+  if the timer branch is taken) and, if it returns true, creates the next instance `delay` ns after the return;
+  `createOk` = `newInstance` succeeds.  If the call has to sleep it stays `pending`. -/
   | wait (env : Env) (createOk : Bool) (delay : Nat)
+  /-- the pending `Wait` call takes the timer branch of its final `select` -/
+  | timerFire
+  /-- the pending `Wait` call takes the `ctx.Done()` branch (only once the start context is cancelled) -/
+  | wakeCancelled
   /-- the await loop receives an out-of-ammo instance result: `instanceStartCancel()` -/
   | outOfAmmoResult
-  /-- the shared RPS schedule reported its end through the callback wrapper: `cancelStart()` -/
+  /-- the shared RPS schedule reports its end through the callback wrapper (first `Next()` without a token or first
+  `Left() == 0` seen by an instance): `cancelStart()` unless the start context is already done -/
   | rpsFinished
   /-- the run context is cancelled (caller, or the pool failing) -/
   | runCancel
@@ -75,46 +220,92 @@ inductive Event
   | instanceExit (id : Nat) (reason : ExitReason)
 deriving Repr, DecidableEq
 
-/-- a `wait` event is well formed in state `s` when its `Wait` call sees the start context and the startup schedule as they
-are: ctx done iff the start context has been cancelled, the next undrawn token, and (ctx not being done) the timer wins -/
+/-- a `wait` event is well formed in state `s` when its `Wait` call sees the start context and the startup schedule as
+they are: ctx done iff the start context has been cancelled, the next undrawn token; `timerWins` is not an input of
+this event (the final `select` is a later event) and is normalised to true -/
 def envMatches (s : St) (env : Env) : Bool :=
   env.ctxDone == s.startCtxDone && env.tok == s.toks.head? && env.timerWins
 
-/-- one `waiter.Wait(startCtx)` call of the start loop and what the loop does with its result -/
-def stepWait (v : Variant) (s : St) (env : Env) (createOk : Bool) (delay : Nat) : St :=
-  if s.phase != .starting || !envMatches s env then s else
-  let r := waitV v s.waiter env
+/-- `Next()` was called and handed out a token on this path of `Wait` -/
+def drew : Path → Bool
+  | .ctxDone => false
+  | .finished => false
+  | _ => true
+
+/-- what the start loop does with the result `r` of a completed `Wait` call -/
+def complete (s : St) (r : Res) (p : Pending) : St :=
+  let s := { s with waiter := r.w, pending := none, waitLog := s.waitLog ++ [r.ok] }
+  let s := if drew r.path then { s with toks := s.toks.tail, consumed := s.consumed + 1 } else s
   if !r.ok then
     -- `ok := waiter.Wait(startCtx); if !ok { err = startCtx.Err(); return }` / the `for` condition fails
-    { s with waiter := r.w, phase := .done }
-  else
-    let s := { s with waiter := r.w, toks := s.toks.tail, consumed := s.consumed + 1 }
-    if s.started == 0 then
-      -- the first instance is created synchronously
-      if createOk then
-        { s with started := 1, created := s.created ++ [⟨0, env.ret + delay, true⟩], running := s.running ++ [0] }
-      else
-        { s with sawCreateFailed := true, phase := .done }
+    { s with phase := .done, ret := .ofCtx .start }
+  else if s.started == 0 then
+    -- the first instance is created synchronously
+    if p.createOk then
+      { s with started := 1, created := s.created ++ [⟨0, p.env.ret + p.delay, true⟩], running := s.running ++ [0],
+               acts := s.acts ++ [.newInstance .run 0, .goRunFirst .run 0] }
     else
-      -- `id := started; go func() { runRes <- …runNewInstance(runCtx, …, id, deps) }()`; `started++`
-      let id := s.started
-      { s with started := s.started + 1, created := s.created ++ [⟨id, env.ret + delay, createOk⟩],
-               running := if createOk then s.running ++ [id] else s.running,
-               sawCreateFailed := s.sawCreateFailed || !createOk }
+      { s with sawCreateFailed := true, firstOk := false, phase := .done, ret := .create,
+               acts := s.acts ++ [.newInstance .run 0] }
+  else
+    -- `id := started; go func() { runRes <- …runNewInstance(runCtx, …, id, deps) }()`; `started++`
+    let id := s.started
+    { s with started := s.started + 1, created := s.created ++ [⟨id, p.env.ret + p.delay, p.createOk⟩],
+             running := if p.createOk then s.running ++ [id] else s.running,
+             sawCreateFailed := s.sawCreateFailed || !p.createOk,
+             acts := s.acts ++ [.goRunNew .run (id : Int)] }
 
-/-- `Run` of instance `id` returns: with a context error only if the RUN context is done (instances do not see the start
-context) -/
-def stepExit (s : St) (id : Nat) (reason : ExitReason) : St :=
-  if reason == .cancelled && !s.runCtxDone then s else { s with running := s.running.erase id }
+/-- the start loop enters `waiter.Wait(startCtx)` -/
+def stepWait (c : Cfg) (s : St) (env : Env) (createOk : Bool) (delay : Nat) : St :=
+  if s.phase != .starting || s.pending.isSome || !envMatches s env then s else
+  let r := waitV c.v s.waiter env
+  if r.path == .timer then { s with pending := some ⟨env, createOk, delay⟩ }
+  else complete s r ⟨env, createOk, delay⟩
 
-def step (v : Variant) (s : St) : Event → St
-  | .wait env createOk delay => stepWait v s env createOk delay
-  | .outOfAmmoResult => { s with sawOutOfAmmo := true, startCtxDone := true }
-  | .rpsFinished => { s with sawRpsFinished := true, startCtxDone := true }
+def stepFire (c : Cfg) (s : St) : St :=
+  match s.pending with
+  | none => s
+  | some p => complete s (waitV c.v s.waiter p.env) p
+
+def stepWake (c : Cfg) (s : St) : St :=
+  match s.pending with
+  | none => s
+  | some p =>
+    if !s.startCtxDone then s
+    else complete s (waitV c.v s.waiter { p.env with timerWins := false }) p
+
+/-- may `Run` of an instance return for this reason in state `s`?  `ctx.Err()` is non-nil only when the RUN context is
+done (instances are not given the start context); with a shared RPS schedule "no tokens left" is seen only after the
+finish callback has run (`sync.Once`); an instance with its own schedule ends with that schedule. -/
+def exitEnabled (c : Cfg) (s : St) : ExitReason → Bool
+  | .cancelled => s.runCtxDone
+  | .scheduleEnd => c.perInstance || s.sharedRpsDone
+  | .ammoEnd => true
+  | .error => true
+
+/-- `Run` of instance `id` returns -/
+def stepExit (c : Cfg) (s : St) (id : Nat) (reason : ExitReason) : St :=
+  if !s.running.contains id || !exitEnabled c s reason then s else
+  { s with running := s.running.erase id, ammoOut := s.ammoOut || reason == .ammoEnd }
+
+/-- an instance has been created successfully (only instances draw from the RPS schedule and the provider) -/
+def anyInstance (s : St) : Bool := s.created.any (·.ok)
+
+def step (c : Cfg) (s : St) : Event → St
+  | .wait env createOk delay => stepWait c s env createOk delay
+  | .timerFire => stepFire c s
+  | .wakeCancelled => stepWake c s
+  | .outOfAmmoResult =>
+      -- `res.Err == outOfAmmoErr` is the result of an instance to which the provider said "no more ammo"
+      if !s.ammoOut then s else { s with sawOutOfAmmo := true, startCtxDone := true }
+  | .rpsFinished =>
+      -- no callback is installed for per-instance schedules; the shared schedule is drawn from by instances only
+      if c.perInstance || !anyInstance s then s
+      else { s with sharedRpsDone := true, sawRpsFinished := true, startCtxDone := true }
   | .runCancel => { s with sawRunCancelled := true, runCtxDone := true, startCtxDone := true }
-  | .instanceExit id reason => stepExit s id reason
+  | .instanceExit id reason => stepExit c s id reason
 
-def run (v : Variant) (s : St) (evs : List Event) : St := evs.foldl (step v) s
+def run (c : Cfg) (s : St) (evs : List Event) : St := evs.foldl (step c) s
 
 /-! ### token times of the startup profiles (offsets from the schedule start, ns) -/
 
